@@ -10,6 +10,17 @@ use write_fonts::FontBuilder;
 pub const CP_ATOMS: [u32; 8] = [0x41, 0x42, 0x43, 0x7F, 0x100, 0xFFFF, 0x10000, 0x10FFFF];
 pub const FEAT_ATOMS: [&[u8; 4]; 4] = [b"liga", b"smcp", b"c2sc", b"zzzz"];
 pub const AXIS: &[u8; 4] = b"wght";
+/// segments on further axes are kept as (lo + AX_STEP * axis, hi + AX_STEP * axis)
+pub const AXES: [&[u8; 4]; 2] = [AXIS, b"wdth"];
+pub const AX_STEP: i32 = 1000;
+pub fn seg_axis(a: i32, b: i32) -> (usize, i32, i32) {
+    let ax = (a / AX_STEP) as usize;
+    (ax, a - AX_STEP * ax as i32, b - AX_STEP * ax as i32)
+}
+fn seg_json(a: i32, b: i32) -> Vec<i32> {
+    let (ax, lo, hi) = seg_axis(a, b);
+    if ax == 0 { vec![lo, hi] } else { vec![lo, hi, ax as i32] }
+}
 
 #[derive(Clone, Debug)]
 pub struct AbsEntry {
@@ -47,7 +58,9 @@ fn usizes(v: &Value) -> Vec<usize> {
     v.as_array().map(|a| a.iter().map(|x| x.as_u64().unwrap() as usize).collect()).unwrap_or_default()
 }
 fn segs(v: &Value) -> Vec<(i32, i32)> {
-    v.as_array().map(|a| a.iter().map(|x| (x[0].as_i64().unwrap() as i32, x[1].as_i64().unwrap() as i32)).collect()).unwrap_or_default()
+    v.as_array()
+        .map(|a| a.iter().map(|x| { let ax = x.get(2).and_then(|v| v.as_i64()).unwrap_or(0) as i32; (x[0].as_i64().unwrap() as i32 + AX_STEP * ax, x[1].as_i64().unwrap() as i32 + AX_STEP * ax) }).collect())
+        .unwrap_or_default()
 }
 impl AbsEntry {
     pub fn from_json(v: &Value) -> Self {
@@ -63,7 +76,7 @@ impl AbsEntry {
         }
     }
     pub fn to_json(&self) -> Value {
-        serde_json::json!({"cps": self.cps, "feats": self.feats, "ds": self.ds.iter().map(|(a, b)| vec![*a, *b]).collect::<Vec<_>>(),
+        serde_json::json!({"cps": self.cps, "feats": self.feats, "ds": self.ds.iter().map(|(a, b)| seg_json(*a, *b)).collect::<Vec<_>>(),
             "kids": self.kids, "conj": self.conj, "ign": self.ign, "fmt": self.fmt, "id": self.id})
     }
 }
@@ -105,7 +118,7 @@ impl AbsDef {
         }
     }
     pub fn to_json(&self) -> Value {
-        serde_json::json!({"cps": self.cps, "feats": self.feats, "ds": self.ds.iter().map(|(a, b)| vec![*a, *b]).collect::<Vec<_>>(),
+        serde_json::json!({"cps": self.cps, "feats": self.feats, "ds": self.ds.iter().map(|(a, b)| seg_json(*a, *b)).collect::<Vec<_>>(),
             "fall": self.fall, "dall": self.dall, "inverted": self.inverted})
     }
     pub fn all() -> Self {
@@ -135,7 +148,8 @@ impl AbsDef {
         } else {
             let mut m: HashMap<Tag, RangeSet<Fixed>> = HashMap::new();
             for (a, b) in &self.ds {
-                m.entry(Tag::new(AXIS)).or_default().insert(Fixed::from_i32(*a)..=Fixed::from_i32(*b));
+                let (ax, a, b) = seg_axis(*a, *b);
+                m.entry(Tag::new(AXES[ax])).or_default().insert(Fixed::from_i32(a)..=Fixed::from_i32(b));
             }
             DesignSpace::Ranges(m)
         };
@@ -250,9 +264,10 @@ pub fn build_format2(t: &AbsTable, variant: u64) -> (Vec<u8>, Vec<usize>) {
             }
             out.extend((e.ds.len() as u16).to_be_bytes());
             for (a, b) in &e.ds {
-                out.extend(AXIS);
-                out.extend(Fixed::from_i32(*a).to_be_bytes());
-                out.extend(Fixed::from_i32(*b).to_be_bytes());
+                let (ax, a, b) = seg_axis(*a, *b);
+                out.extend(AXES[ax]);
+                out.extend(Fixed::from_i32(a).to_be_bytes());
+                out.extend(Fixed::from_i32(b).to_be_bytes());
             }
         }
         if !e.kids.is_empty() {
